@@ -57,12 +57,17 @@ class Rec(object):
 DEFAULT_CONSTS = {'pi': (math.pi, 500000314), 'e': (math.e, 500000271), 'i': (1j, 500001001), 'j': (1j, 500001002)}
 
 
+# every default constant of every math grader class (infty: SumGrader, IntegralGrader, FormulaGrader with allow_inf)
+CONST_CODES = dict(DEFAULT_CONSTS, infty=(float('inf'), 500009999))
+
+
 def same(a, b, tol=1e-9):
-    """numeric equality of two observed values (scalars or arrays)"""
+    """numeric equality of two observed values (scalars or arrays; inf equals inf)"""
     try:
         import numpy as np
         x, y = np.asarray(a, dtype=complex), np.asarray(b, dtype=complex)
-        return x.shape == y.shape and bool(np.all(np.abs(x - y) <= tol))
+        with np.errstate(invalid='ignore'):
+            return x.shape == y.shape and bool(np.all((x == y) | (np.abs(x - y) <= tol)))
     except Exception:
         return False
 
@@ -234,10 +239,9 @@ def classify_exception(obs, e):
 
 
 def after_sampling(e):
-    """an exception raised once the samples exist (an expression uses a name that is no variable, ...) concerns the
-    evaluation of the expressions, not the sample: the captured samples are judged, the exception is not"""
-    from mitxgraders.exceptions import ConfigError, StudentFacingError
-    return isinstance(e, StudentFacingError) and not isinstance(e, (ConfigError, Timeout))
+    """an exception raised once the samples exist (the wrapper records them only when sampling has returned) concerns
+    the evaluation of the expressions, not the sample: the captured samples are judged, the exception is not"""
+    return isinstance(e, Exception)          # Timeout is a BaseException: looping is never excused
 
 
 def observe_direct(cfg, style):
@@ -271,7 +275,12 @@ def grader_config(cfg, style, log):
     table, funcs = make_sampler_table(cfg, style, log)
     user_consts = constants_of(cfg, [q['n'] for q in cfg['consts'] if q['n'] not in DEFAULT_CONSTS])
     names = [v['n'] for v in cfg['vars']] + sorted(user_consts)
-    names += [n for n in sorted(DEFAULT_CONSTS) if n not in names]
+    removed = set()
+    for u in cfg.get('uops', []):             # default constants overridden ("set") or removed (None) by the author
+        user_consts[u['n']] = u['v'] if u['op'] == 'set' else None
+        if u['op'] == 'remove':
+            removed.add(u['n'])
+    names += [n for n in sorted(DEFAULT_CONSTS) if n not in names and n not in removed]
     occ = [o['key'] for o in cfg.get('occ', [])]
     in_answer = [o for x, o in enumerate(occ) if x % 2 == 0]
     in_student = [o for x, o in enumerate(occ) if x % 2 == 1]
@@ -316,6 +325,7 @@ def observe_grader(cfg, style):
     obs = base_obs()
     log, captured = [], []
     try:
+        construct_predecessor(cfg.get('pred'))
         kw, student = grader_config(cfg, style, log)
         grader = FormulaGrader(**kw)
     except Exception as e:  # noqa
@@ -336,7 +346,7 @@ def observe_grader(cfg, style):
         if samples is None:
             obs['res'], obs['bad'] = 'other', 'no-sample-observable'
             return obs
-    codes = {n: DEFAULT_CONSTS[n] for n in DEFAULT_CONSTS}
+    codes = CONST_CODES
     set_samples(obs, cfg, samples, codes)
     obs['bad'] = obs['bad'] or check_probes(log, samples)
     if style == 'tap':
@@ -357,6 +367,7 @@ def observe_list(cfg, style):
     inner = dict(cfg)
     inner['vars'] = [v for v in cfg['vars'] if v['n'] != 'sibling_1']
     try:
+        construct_predecessor(cfg.get('pred'))
         kw, student = grader_config(inner, style, log)
         # the second box's answer uses sibling_1 as well
         args = kw['answers'][len('probe('):-1]
@@ -385,9 +396,128 @@ def observe_list(cfg, style):
     if samples is None:
         obs['res'], obs['bad'] = 'other', 'no-sample-observable'
         return obs
-    codes = {n: DEFAULT_CONSTS[n] for n in DEFAULT_CONSTS}
+    codes = CONST_CODES
     obs['samples'], obs['bad'] = encode_samples(samples, codes)
     return obs
+
+
+# ---------------------------------------------------------------- construction histories
+USER_OPS = {          # mirror of MC_DepResolve!UserOps
+    'none': [], 'add': [('kappa', 'set', 7)], 'ovr_pi': [('pi', 'set', 3)], 'rm_pi': [('pi', 'remove', 0)],
+    'mixed': [('e', 'set', 2), ('j', 'remove', 0), ('kappa', 'set', 7)], 'rm_infty': [('infty', 'remove', 0)],
+    'ovr_infty': [('infty', 'set', 1000), ('i', 'set', 5)],
+    'rm_all': [(n, 'remove', 0) for n in ('pi', 'e', 'i', 'j', 'infty')],
+}
+
+
+def build_grader(cls, op, answer, ns, funcs=None, metric=False):
+    """one math grader of class cls whose user_constants are the operations op; returns (grader, call)"""
+    import mitxgraders as mg
+    uc = {n: (v if o == 'set' else None) for n, o, v in USER_OPS[op]}
+    common = dict(user_constants=uc, suppress_warnings=True, user_functions=dict(funcs or {}), metric_suffixes=metric)
+    if cls in ('FG', 'FGinf'):
+        g = mg.FormulaGrader(answers=answer, samples=ns, allow_inf=(cls == 'FGinf'), **common)
+    elif cls == 'NG':
+        g = mg.NumericalGrader(answers=answer, **common)
+    elif cls == 'MG':
+        g = mg.MatrixGrader(answers=answer, samples=ns, **common)
+    elif cls == 'SG':
+        g = mg.SumGrader(answers={'lower': '1', 'upper': '3', 'summand': answer, 'summation_variable': 'n'},
+                         samples=ns, **common)
+        return g, (lambda: g(None, ['1', '3', answer, 'n']))
+    elif cls == 'IG':                              # scipy is absent: constructed, never called
+        g = mg.IntegralGrader(answers={'lower': '0', 'upper': '1', 'integrand': answer, 'integration_variable': 'x'},
+                              **common)
+        return g, (lambda: None)
+    else:
+        raise ValueError(cls)
+    return g, (lambda: g(None, answer))
+
+
+def construct_predecessor(pred):
+    """an earlier grader of the same process: constructed with its own constant edits, called once"""
+    if not pred or pred['cls'] == 'none':
+        return
+    _, call = build_grader(pred['cls'], pred['op'], '1', 2, metric=(pred['op'] == 'add'))
+    try:
+        call()
+    except Exception:  # noqa -- only the LAST grader is under observation
+        pass
+
+
+def observe_history(c, expected_names):
+    """construct the predecessors, then the last grader; its samples are observed as in observe_grader"""
+    obs = base_obs()
+    log, captured = [], []
+    ns = 1 if c['cl'] == 'NG' else NS
+    try:
+        construct_predecessor(c['p2'])
+        construct_predecessor(c['p1'])
+        names = [n for n in sorted(expected_names) if n != 'infty']
+        funcs = {'probe': Rec(len(names), log, ('probe', tuple(names)), lambda a: 1.0)} if names else {}
+        answer = 'probe(%s)' % ', '.join(names) if names else '1'
+        grader, call = build_grader(c['cl'], c['ol'], answer, ns, funcs)
+    except Exception as e:  # noqa
+        return classify_exception(obs, e)
+    orig = getattr(grader, 'gen_var_and_func_samples', None)
+    if callable(orig):
+        def wrapped(*a, **k):
+            r = orig(*a, **k)
+            captured.append(r[0])
+            return r
+        grader.gen_var_and_func_samples = wrapped
+    _, e = guarded(call)
+    samples = captured[0] if captured else None
+    if e is not None and not (samples is not None and after_sampling(e)):
+        return classify_exception(obs, e)
+    if samples is None:
+        samples = samples_from_probe(log, ns)
+        if samples is None:
+            obs['res'], obs['bad'] = 'other', 'no-sample-observable'
+            return obs
+    obs['samples'], obs['bad'] = encode_samples(samples, CONST_CODES)
+    obs['bad'] = obs['bad'] or check_probes(log, samples)
+    return obs
+
+
+def hist_summary(c):
+    def one(k, o):
+        return '%s(user_constants=%s)' % (k, {n: (v if op == 'set' else None) for n, op, v in USER_OPS[o]})
+    parts = [one(p['cls'], p['op']) for p in (c['p2'], c['p1']) if p['cls'] != 'none']
+    return ' ; then '.join(parts + [one(c['cl'], c['ol'])])
+
+
+def replay_hist(states, extra):
+    from engine import repo
+    repo.activate()
+    n = 0
+    keys, bad = set(), []
+    sample = None
+    for st in states:
+        c = st['c']
+        if c['kind'] != 'hist':
+            continue
+        if TIMEOUTS[0] >= MAX_TIMEOUTS:
+            break
+        out = st['out']
+        expected = set()
+        for a in out['alts']:
+            for row in a.get('samples', []):
+                expected |= set(row)
+        obs = observe_history(c, expected)
+        n += 1
+        clause, alt = compare(out['alts'], obs, {}, {})
+        keys.add(('hist', c['cl'], c['ol'], 'ok', c['p1']['cls'], 1 + (c['p1']['cls'] != 'none') + (c['p2']['cls'] != 'none')))
+        if sample is None and c['p1']['cls'] != 'none' and c['ol'] == 'mixed':
+            sample = {'history': hist_summary(c), 'allowed': out['alts'], 'observed': obs['samples']}
+        if clause:
+            cfg = {'vars': [], 'heads': [], 'occ': [], 'consts': [], 'ns': NS, 'history': c}
+            if len(bad) < 40:
+                bad.append({'case': c, 'binding': 'history', 'scheme': 'hist', 'style': 'plain', 'cfg': cfg,
+                            'allowed': out['alts'], 'obs': obs, 'clause': clause})
+            else:
+                bad.append(None)
+    return {'n': n, 'keys': sorted(keys), 'bad': bad, 'drift': [], 'sample': sample}
 
 
 OBSERVERS = {'direct': observe_direct, 'grader': observe_grader, 'list': observe_list}
@@ -461,7 +591,7 @@ def compare(alts, obs, m, codes):
         why = ''
         for want, got in zip(alt['samples'], obs['samples']):
             got = {p['n']: obs_value_abstract(p['n'], p['v'], codes) for p in got}
-            for an, av in want.items():
+            for an, av in (want.items() if isinstance(want, dict) else ()):   # (the empty function prints as << >>)
                 cn = m.get(an, an)
                 if cn not in got:
                     why = why or 'incomplete-sample'
@@ -586,6 +716,8 @@ def replay_num(states, extra):
 
 
 def cfg_summary(cfg):
+    if cfg.get('history'):
+        return hist_summary(cfg['history'])
     parts = []
     for v in cfg['vars']:
         parts.append(v['n'] + ('=draw' if v['k'] == 'ind' else '=1+' + '+'.join(v['deps']) if v['deps'] else '=1'))
@@ -596,6 +728,10 @@ def cfg_summary(cfg):
         s += ' | in expressions: ' + ','.join(o['key'] for o in cfg['occ'])
     if cfg.get('vec'):
         s += ' | 2-vectors'
+    if cfg.get('uops'):
+        s += ' | user_constants: ' + ', '.join('%s=%s' % (u['n'], u['v'] if u['op'] == 'set' else None) for u in cfg['uops'])
+    if cfg.get('pred'):
+        s += ' | constructed before: %s %s' % (cfg['pred']['cls'], cfg['pred']['op'])
     return s
 
 
@@ -742,7 +878,15 @@ def rand_case(rng, rid, big):
             # sibling_1 is appended by the grader after the declared variables
             cfg['vars'] = [v for v in cfg['vars'] if v['n'] != 'sibling_1'] + \
                           [v for v in cfg['vars'] if v['n'] == 'sibling_1']
-    if binding in ('direct', 'grader') and rng.random() < 0.15:
+    if binding != 'direct':
+        # the author overrides (suppress_warnings) or removes (None) default constants; other graders came first
+        free = [n_ for n_ in sorted(DEFAULT_CONSTS) if n_ not in byname]
+        if free and rng.random() < 0.4:
+            cfg['uops'] = [{'n': n_, 'op': 'set', 'v': rng.randint(-9, 9)} if rng.random() < 0.6
+                           else {'n': n_, 'op': 'remove', 'v': 0} for n_ in rng.sample(free, rng.randint(1, min(2, len(free))))]
+        if rng.random() < 0.3:
+            cfg['pred'] = {'cls': rng.choice(['FG', 'FGinf', 'NG', 'MG', 'SG', 'IG']), 'op': rng.choice(sorted(USER_OPS))}
+    if binding in ('direct', 'grader') and not cfg.get('uops') and rng.random() < 0.15:
         # vector mode: every variable and user constant is a 2-vector; the second component has its own draws
         style = 'plain'
         cfg['vec'] = {'draws': {}, 'consts': {}}
@@ -768,8 +912,12 @@ def second_component(case, obs):
 
 def to_record(case, obs):
     cfg = case['cfg']
+    direct = case['bind'] == 'direct'
     r = {'id': case['id'], 'bind': case['bind'], 'vars': cfg['vars'], 'heads': cfg['heads'], 'occ': cfg['occ'],
-         'consts': cfg['consts'], 'ns': cfg['ns'], 'res': obs['res'], 'diag': obs['diag'], 'names': obs['names'],
+         'defaults': [q for q in cfg['consts'] if not direct and q['n'] in DEFAULT_CONSTS],
+         'uops': [{'n': q['n'], 'op': 'set', 'v': q['v']} for q in cfg['consts'] if direct or q['n'] not in DEFAULT_CONSTS]
+                 + list(cfg.get('uops', [])),
+         'ns': cfg['ns'], 'res': obs['res'], 'diag': obs['diag'], 'names': obs['names'],
          'samples': obs['samples'], 'orders': obs['orders'], 'has_order': obs['has_order'],
          'loop_order': case['loop_order'], 'cmp_names': case['bind'] != 'list', 'bad': obs['bad']}
     return r
@@ -831,7 +979,7 @@ def run_machines(ctx):
 
 def run_replay(ctx, part, classes):
     """spec -> code: dump the enumerated cases with their allowed outcomes, replay them through both bindings"""
-    fn = {'cases': 'replay_states', 'num': 'replay_num'}[part]
+    fn = {'cases': 'replay_states', 'num': 'replay_num', 'hist': 'replay_hist'}[part]
     d = os.path.join(ctx.scratch, part)
     ctx.tlc('sampling/MC_DepResolve.tla', 'sampling/MC_DepResolve_%s_%s.cfg' % (part, ctx.tier), dump=d, timeout=6000)
     res = dump.parallel(d + '.dump', 'engine.adapters.c13', fn, extra={'ns': NS})
@@ -841,7 +989,7 @@ def run_replay(ctx, part, classes):
         ctx.evaluations += r['n']
         for k in r['keys']:
             ctx.nontrivial.add(tuple(map(str, k)))
-            classes.add(str(k[3]) if part == 'cases' else str(k[1]))
+            classes.add(str(k[3]) if part in ('cases', 'hist') else str(k[1]))
         if r['sample']:
             ctx.sample(r['sample'], limit=4)
         for d_ in r['drift']:
@@ -883,7 +1031,7 @@ def run_traces(ctx, n):
 def run(ctx):
     run_machines(ctx)
     classes = set()
-    for part in ('cases', 'num'):
+    for part in ('cases', 'num', 'hist'):
         run_replay(ctx, part, classes)
     n = 3000 if ctx.quick else 40000
     run_traces(ctx, n)
